@@ -112,6 +112,9 @@ fn conversions<A: Abc>(rec: &mut Recorder, rng: &mut impl Rng, n: usize) {
             };
             let wm = fm.to_weight(bg.clone());
             let mut e = base.clone(); e["ev"] = json!("to_weight"); e["q"] = json!(qmat::<A>(wm.matrix(), Q12)); out.push(e);
+            // ... and the weights recovered from the base-2 log-odds through the conversion trait
+            let back = WeightMatrix::<A>::from(wm.to_scoring());
+            let mut e = base.clone(); e["ev"] = json!("to_weight"); e["route"] = json!("WeightMatrix::from(scoring)"); e["q"] = json!(qmat::<A>(back.matrix(), Q12)); out.push(e);
             // log-odds through every route
             let (basen, based): (i64, i64) = [(2, 1), (4, 1), (10, 1), (11, 4), (8, 1)][it % 5];
             let routes: Vec<(&str, ScoringMatrix<A>, i64, i64)> = vec![
@@ -435,7 +438,8 @@ pub fn record_c10(rec: &mut Recorder, seed: u64, thorough: bool) {
         }
         // ---- mirrored scoring on the opposite strand (grid matrix => exact)
         if m >= 1 {
-            let l = m + rng.gen_range(0..40);
+            // (one pair in six is long enough for the vectorised 32 x 32 transposition of the AVX2 striping code)
+            let l = if it % 6 == 5 { [1024usize, 1056, 2048, 1100][(it / 6) % 4] } else { m + rng.gen_range(0..40) };
             let ranks = random_ranks::<A>(&mut rng, l, 0.05);
             let pssm: Vec<Vec<i64>> = cells.iter().map(|r| { let mut r = r.clone(); r[4] = NINF; r }).collect();
             let r = guarded(|| {
@@ -443,8 +447,10 @@ pub fn record_c10(rec: &mut Recorder, seed: u64, thorough: bool) {
                 let rcm = sm.reverse_complement();
                 let rc_ranks: Vec<usize> = ranks.iter().rev().map(|&x| <A as ComplementableAlphabet>::complement(A::sym(x)).as_index()).collect();
                 let pli = Pipeline::<A, _>::generic();
-                let mut s1: lightmotif::seq::StripedSequence<A, U32> = pli.stripe(A::syms(&ranks));
-                let mut s2: lightmotif::seq::StripedSequence<A, U32> = pli.stripe(A::syms(&rc_ranks));
+                // long pairs are striped by the dispatched pipeline (AVX2 on this host), the others by the generic one
+                let dpl = Pipeline::<A, _>::dispatch();
+                let mut s1: lightmotif::seq::StripedSequence<A, U32> = if l >= 1024 { dpl.stripe(A::syms(&ranks)) } else { pli.stripe(A::syms(&ranks)) };
+                let mut s2: lightmotif::seq::StripedSequence<A, U32> = if l >= 1024 { dpl.stripe(A::syms(&rc_ranks)) } else { pli.stripe(A::syms(&rc_ranks)) };
                 // every other pair of sequences was used with a shorter motif before (look-ahead rows added in two steps)
                 if it % 2 == 0 && m >= 3 { s1.configure_wrap(1 + it % (m - 2)); s2.configure_wrap(1 + (it / 2) % (m - 2)); }
                 // ... or with a LONGER motif (both strands configured once for the longest motif of a collection)
@@ -471,7 +477,10 @@ pub fn record_c10(rec: &mut Recorder, seed: u64, thorough: bool) {
                 // the same scores read from the back (position L-M-i of one strand against position i of the other)
                 let mut b1: Vec<Value> = sc1.iter().rev().map(|&x| grid(x, 2)).collect(); b1.reverse();
                 let mut b2: Vec<Value> = sc2.iter().rev().map(|&x| grid(x, 2)).collect(); b2.reverse();
-                let back_ok = b1 == o1 && b2 == o2;
+                // ... and position by position through Index (what the Python __getitem__ does)
+                let i1: Vec<Value> = (0..o1.len()).map(|i| grid(sc1[i], 2)).collect();
+                let i2: Vec<Value> = (0..o2.len()).map(|i| grid(sc2[i], 2)).collect();
+                let back_ok = b1 == o1 && b2 == o2 && i1 == o1 && i2 == o2;
                 (rc_ranks, o1, o2, p1, p2, back_ok)
             });
             rec.reset(); rec.class("rc_score");
